@@ -74,6 +74,10 @@ def replay(case):
         M = [a.copy() for a in Ms]
         if r == 1:
             L, M = [a[:, :, 0] for a in L], [a[0] for a in M]
+        if cfg.get('share'):
+            # equal components passed as ONE array object per list (S = [s] * d, ...), only M differs from site to site
+            s0, l0, e0 = Ss[0].copy(), L[0], np.eye(n)
+            return [s0] * d, [l0] * d, [e0] * d, M
         return [a.copy() for a in Ss], L, [np.eye(n) for _ in range(d)], M
 
     fns = {'lie': ode.lie_splitting, 'strang': ode.strang_splitting, 'yoshida': ode.yoshida_splitting,
